@@ -11,6 +11,7 @@ func main() {
 		"C01": {Level: "model_checking", Run: func(c *vrun.Ctx) error { return chainh.Run(c, "C01") }},
 		"C02": {Level: "model_checking", Run: func(c *vrun.Ctx) error { return chainh.Run(c, "C02") }},
 		"C03": {Level: "model_checking", Run: func(c *vrun.Ctx) error { return chainh.Run(c, "C03") }},
+		"C04": {Level: "model_checking", Run: func(c *vrun.Ctx) error { return chainh.Run(c, "C04") }},
 		"C17": {Level: "model_checking", Run: func(c *vrun.Ctx) error { return chainh.Run(c, "C17") }},
 	})
 }
